@@ -14,6 +14,7 @@ package main
 //   r<e>   server sends the complete reply to e's query     rs<e> same, in three segments
 //   rb<e>  server sends a complete frame that does not decode
 //   rp<e>  server sends half of the reply, then closes     x<e>  server closes e's connection
+//   to<e>  the response time-out of e's worker fires: its blocked Read returns a time-out, nothing consumed, the server stays
 //   rr<e>  server sends the reply to e's query twice      du<e>  before replying to e the server repeats
 //   di     every unused connection gets a copy of the last frame the server sent on it   the last frame it sent
 //   xi     server closes every connection that is currently not in use
@@ -39,6 +40,7 @@ import (
 	"io"
 	"math/rand"
 	"net"
+	"os"
 	"reflect"
 	"sort"
 	"strconv"
@@ -98,6 +100,7 @@ type c06conn struct {
 	id         int
 	closed     bool
 	peerClosed bool
+	timedOut   bool // the next blocked Read returns a time-out with no octet consumed (op to<e>)
 	wBlocked   bool
 	wOpen      bool
 	wNonce     int
@@ -264,6 +267,12 @@ func (c *c06conn) Read(p []byte) (int, error) {
 			h.event(c06E, c.id, 0, fmt.Sprintf("E%d", c.id))
 			h.cv.Broadcast()
 			return 0, net.ErrClosed
+		}
+		if c.timedOut { // the read deadline fired: nothing was consumed, the server may still answer later
+			c.timedOut, c.rBlocked = false, false
+			h.event(c06E, c.id, 0, fmt.Sprintf("E%d", c.id))
+			h.cv.Broadcast()
+			return 0, os.ErrDeadlineExceeded
 		}
 		if c.peerClosed {
 			c.rBlocked = false
@@ -737,6 +746,13 @@ func (h *c06case) op(tok string) {
 			c.peerClosed = true
 		}
 		h.mu.Unlock()
+	case "to": // the response time-out of e's worker fires (the server has not answered and does not close)
+		h.mu.Lock()
+		if c := h.readerOf(e); c != nil {
+			c.timedOut, c.rBlocked = true, false
+			h.cv.Broadcast()
+		}
+		h.mu.Unlock()
 	case "xi":
 		h.mu.Lock()
 		for _, c := range h.conns {
@@ -930,6 +946,10 @@ var c06fixed = []struct{ cat, cs string }{
 	{"dup-bad", "s1 dp1 w1 rb1 dp1 w1 r1 s2 w2 r2"},
 	{"dup-close", "s1 dp1 w1 rr1 s2 C w2"},
 	{"dup-many", "s1 s2 s3 dp1 dp2 dp3 w1 w2 w3 rr1 rr2 rr3 s4 w4 w4 w4 dp4 w4 r4 s5 w5 r5"},
+	{"read-timeout", "s1 dp1 w1 to1 s2 dp2 w2 r2 s3 w3 r3"},
+	{"read-timeout", "s1 dp1 w1 r1 s2 w2 to2 dp2 w2 r2 s3 w3 r3"},
+	{"read-timeout", "s1 dp1 w1 r1 s2 w2 to2 dp2 w2 to2 s3 dp3 w3 r3"},
+	{"read-timeout", "s1 s2 dp1 dp2 w1 w2 to1 r2 s3 w3 r3 s4 w4 dp4 w4 r4"},
 	{"idle-timeout", "s1 dp1 w1 r1 t s2 dp2 w2 r2"},
 	{"idle-timeout", "s1 dp1 s2 dp2 w1 w2 r1 t r2 s3 w3 r3 s4 w4 r4"},
 	{"idle-timeout", "s1 c1 dp1 t s2 dp2 w2 r2"},
